@@ -95,18 +95,26 @@ func addrOf(s string) (int, bool) {
 	}
 	return x*62500 + y*250 + z - 1, false
 }
+// locality labels: l = 100*region + 10*zone + subzone (digits 1..9), 0 = no label; the string order
+// of the labels is the numeric order of the codes.
 func locStr(l int) string {
 	if l == 0 {
 		return ""
 	}
-	return fmt.Sprintf("r%d/z%d/s%d", l, l, l) // single digit: string order = numeric order
+	return fmt.Sprintf("r%d/z%d/s%d", l/100, (l/10)%10, l%10)
 }
 func locOf(s string) int {
 	if s == "" {
 		return 0
 	}
-	return unstr("r", strings.SplitN(s, "/", 2)[0])
+	var r, z, sz int
+	if _, err := fmt.Sscanf(s, "r%d/z%d/s%d", &r, &z, &sz); err != nil {
+		panic("cannot un-intern locality " + s)
+	}
+	return r*100 + z*10 + sz
 }
+
+var locTable = []int{0, 111, 112, 121, 211, 222}
 
 func (e EP) real() *model.IstioEndpoint {
 	ie := &model.IstioEndpoint{
@@ -342,7 +350,7 @@ func (g *idxGen) skey() SKey {
 func (g *idxGen) ep() EP {
 	r := g.r
 	e := EP{Wl: 1 + r.Intn(2), Addr: 1 + r.Intn(5), Port: 1 + r.Intn(2), EPort: 8080, Health: hHealthy, Weight: uint32(r.Intn(3)),
-		Cluster: 1, Loc: 1 + r.Intn(2), TLS: r.Bool()}
+		Cluster: 1, Loc: 111 + r.Intn(2), TLS: r.Bool()}
 	if r.Chance(50) {
 		e.SA = 1 + r.Intn(3)
 	}
@@ -702,7 +710,7 @@ func genConc(c *vlib.Collector, seed uint64, id *int) {
 		}
 	}
 	mk := func(wl, addr, sa int) EP {
-		return EP{Wl: wl, Addr: addr, Port: 1, EPort: 8080, SA: sa, Cluster: 1, Loc: 1}
+		return EP{Wl: wl, Addr: addr, Port: 1, EPort: 8080, SA: sa, Cluster: 1, Loc: 111}
 	}
 	A, B := SKey{1, 1}, SKey{1, 2}
 	// the K1 scenario and its neighbours, every schedule
